@@ -119,12 +119,10 @@ def universe(tier, seed, shard, nshards):
     idx = 0
     for sign, base in (('pos', univ.BASE3), ('mixed', univ.BASEPM)):
         A = univ.alphabet(base, seed)
-        sers = univ.series(A, 1, 5 if thorough else 4)
+        sers = univ.series(A, 1, 6 if thorough else 5)
         for s1 in sers:
             for s2 in sers:
-                if max(len(s1), len(s2)) > 3 and not thorough and (len(s1) + len(s2) > 6):
-                    continue
-                if thorough and len(s1) + len(s2) > 8:
+                if len(s1) + len(s2) > (9 if thorough else 7):
                     continue
                 idx += 1
                 if idx % nshards != shard:
@@ -168,7 +166,7 @@ def run(ctx):
         PROP, ctx.tier, ctx.seed, acc,
         rule='every series pair of the universe x both inner distances x every window; non-trivial = LB > 0, unequal lengths or ndim > 1',
         bounds={'alphabets': {'pos': list(univ.alphabet(univ.BASE3, ctx.seed)), 'mixed': list(univ.alphabet(univ.BASEPM, ctx.seed))},
-                '1d': 'all pairs with lengths 1..%s, all windows None,1..max, penalties {None,.5,2} for LB' % ('5 (sum <= 8)' if ctx.thorough else '4 (sum <= 6 beyond 3)'),
+                '1d': 'all pairs with lengths 1..%s, all windows None,1..max, penalties {None,.5,2} for LB' % ('6 (sum <= 9)' if ctx.thorough else '5 (sum <= 7)'),
                 'nd': 'ndim 2 (len <= 3) and 3 (len <= 2) over 2-letter alphabets, positive and mixed sign',
                 'routes': 'ed.distance, ed.distance_fast, dtw.ub_euclidean, dtw_ndim.ub_euclidean, ed_cc.distance_ndim, dtw_cc.ub_euclidean(_ndim), distance(only_ub) x {py, fast, use_c, ndim}, exported C functions'},
         assumptions=['DTW values in the inequalities come from the reference model (tied to the implementation by C01/C02/C11)',
